@@ -79,7 +79,38 @@ def probe():
     del f
     if y != float(k):
       bad.append([i, k, y])
-  return {'F26-jit-stale-trace-closure': {'fails': bool(bad), 'stale_calls': bad[:5], 'count': len(bad)}}
+  # nn.while_loop / nn.cond / nn.switch: what the condition / an untaken branch may not do
+  class Loop(nn.Module):
+    cond_writes: bool = False
+
+    @nn.compact
+    def __call__(self, x):
+      self.variable('state', 'acc', lambda: jnp.array(0, jnp.int32))
+      self.variable('state', 'n_cond', lambda: jnp.array(0, jnp.int32))
+      cw = self.cond_writes
+
+      def cond_fn(mdl, c):
+        if cw:
+          mdl.put_variable('state', 'n_cond', mdl.get_variable('state', 'n_cond') + 1)
+        return mdl.get_variable('state', 'acc') < 3
+
+      def body_fn(mdl, c):
+        mdl.put_variable('state', 'acc', mdl.get_variable('state', 'acc') + 1)
+        return c * 2.0 + 1.0
+      return nn.while_loop(cond_fn, body_fn, self, x, carry_variables='state')
+  v0 = {'state': {'acc': jnp.array(0, jnp.int32), 'n_cond': jnp.array(0, jnp.int32)}}
+  loop = {}
+  try:
+    y, upd = Loop(False).apply(v0, jnp.asarray(1.0), mutable=['state'])
+    loop['plain'] = {'y': float(y), 'acc': int(upd['state']['acc']), 'n_cond': int(upd['state']['n_cond'])}
+  except Exception as e:  # pylint: disable=broad-except
+    loop['plain'] = {'err': type(e).__name__}
+  try:
+    y, upd = Loop(True).apply(v0, jnp.asarray(1.0), mutable=['state'])
+    loop['cond_writes'] = {'y': float(y), 'acc': int(upd['state']['acc']), 'n_cond': int(upd['state']['n_cond'])}
+  except Exception as e:  # pylint: disable=broad-except
+    loop['cond_writes'] = {'err': type(e).__name__}
+  return {'F26-jit-stale-trace-closure': {'fails': bool(bad), 'stale_calls': bad[:5], 'count': len(bad)}, 'while_loop': loop}
 
 
 def jit_method_family(cases):
